@@ -649,6 +649,12 @@ def c07(tier, rng):
             for form in ('({a})[{b}]', '({a})[{b}] = 1', '({a}).p', '({a}).p = {b}', '({a})({b})', '({a})({b}, {b})', 'A[{b}]', 'A[{b}] = {a}', 'O.p = {a}',
                          '({a}) == ({b})', '({a}) != ({b})', '({a}) << ({b})', '({a}) >> ({b})', '({a}) % ({b})', '({a}) / ({b})', '({a}) ** ({b})', '({a}) + ({b})'):
                 cases.append(prog_case(pre + f'{P} ' + form.format(a=a, b=b_) + ';\n', 'form-x-kind'))
+    # every operator on every pair of callable values (each built-in with itself and with every other, user functions)
+    callables = list(NAT.values()) + ['f', 'g2']
+    for l in callables:
+        for r in callables:
+            for op in (BINOPS if tier == 'thorough' or l == r or (dh((l, r)) % 3 == 0) else ['==', '!=']):
+                cases.append(prog_case(pre + f'{FUN} g2() {{}}\n{P} {l} {op} {r};\n{VAR} h = {l};\n{P} [h] == [{r}];\n{P} h == h;\n', 'callable-pairs'))
     # every built-in on 0..3 arguments of every kind
     for name in NAT:
         if name == 'clock':
@@ -705,7 +711,7 @@ def c07(tier, rng):
             for hd in (heads if tier == 'thorough' else heads[:3]):
                 for after in (b'', b'5'):
                     cli.append(CliCase('impl-only-ill-formed-input', ['p.bn'], {'p.bn': src.encode()}, hd + tl + after + b'\nnext\n', 'p.bn'))
-    rule = (f'17 indexing/property/call/store/operator forms x {len(kv)}^2 value kinds and boundary magnitudes; every built-in x 0..3 arguments x every kind; recursion to depth 400, values and expressions nested 400 deep; '
+    rule = (f'17 indexing/property/call/store/operator forms x {len(kv)}^2 value kinds and boundary magnitudes; every operator on every pair of the 19 callable values; every built-in x 0..3 arguments x every kind; recursion to depth 400, values and expressions nested 400 deep; '
             f'{len(cli)} runs of the executable on input lines that are not well-formed UTF-8 (characters cut off at every byte, stray continuation bytes, overlong forms, surrogates) consumed in {len(uses)} ways (implementation alone: status 0 or 70, never a Go panic); '
             f'{n} seeded grammar-based programs with a 6% fault rate, a third of them token-mutated; the two known findings (cyclic value printed, unbounded recursion) are replayed on every run. Non-trivial = prints or diagnoses.')
     return {'cases': cases, 'cli': cli, 'cli_oracles': [cli_oracle_no_abnormal], 'rule': rule, 'exhaustive': True, 'fuel': 10000, 'timeout_ms': 20000}
